@@ -174,12 +174,25 @@ class Contract:
     def ctx(self, eng, st, result=None, ghost=None, at_exit=False):
         old = None
         env = st.env
+        # flow typing may have narrowed an Optional parameter (after `x is not None`) or replaced it by a default; contract
+        # lambdas always see parameters at their DECLARED type: a narrowed value v is presented as some(v)
+        widened = None
+        for nm, ty in list(self.params) + list(self.captured):
+            cur = st.env.get(nm)
+            if isinstance(ty, TOpt) and cur is not None and not isinstance(cur, E.Ref) and cur.ty == ty.elem:
+                widened = widened or dict(st.env)
+                widened[nm] = Val(ty, ty.some(cur.t))
+            elif isinstance(ty, TOpt) and cur is not None and cur.ty == TNoneLit:
+                widened = widened or dict(st.env)
+                widened[nm] = ty.none()
+        if widened is not None:
+            env = widened
         if st.old:
             old = OldCtx(eng, st.old["heap"], st.old["env"])
             if at_exit:
                 # in postconditions a parameter name denotes the ARGUMENT (entry value) unless the contract
                 # declares the parameter as modified in place; locals keep their final values
-                env = dict(st.env)
+                env = dict(env)
                 for nm, _ in list(self.params) + list(self.captured):
                     if not self.modifies.get(nm) and nm in st.old["env"]:
                         env[nm] = st.old["env"][nm]
@@ -251,6 +264,7 @@ ANNOTATIONS = {
     "list[int]": TList(TInt),
     "dict[int,int]": TDict(TInt, TInt),
     "list[tuple[int,BooleanSpace]]": TList(TTuple(TInt, TSpace)),
+    "list[tuple[int,list[int]|None]]": TList(TTuple(TInt, TOpt(TList(TInt)))),
     "int": TInt,
     "bool": TBool,
 }
